@@ -206,7 +206,10 @@ def growth_step(ls):
     P = ls["base"]["params"]
 
     def val(x):
-        return float(P[x]) if isinstance(x, str) else float(x)
+        try:
+            return float(x)              # a literal (also inside an equation string)
+        except (TypeError, ValueError):
+            return float(P[x])           # a named parameter
     if g["type"] == "linear":
         r = val(g["params"]["growth_rate"])
         return lambda V, t: V + r * dt
@@ -301,7 +304,10 @@ def mechanism_possible(ls, di, age, V_first, V_last):
     P = ls["base"]["params"]
 
     def val(x):
-        return float(P[x]) if isinstance(x, str) else float(x)
+        try:
+            return float(x)              # a literal (also inside an equation string)
+        except (TypeError, ValueError):
+            return float(P[x])           # a named parameter
     eps = 1e-7
     if d["type"] == "time":
         return age >= val(d["params"]["threshold"]) - eps
